@@ -391,46 +391,35 @@ let panic_name = function
   | P_mode_limit_parse -> "mode_limit_parse"
 
 (* ---------------------------------------------------------------- trace mode *)
-(* LinesCodec framing of the bytes received on one connection *)
-type framed = FLine of string | FTooLong
-let frame (buf : Buffer.t) : framed list =
-  let out = ref [] in
-  let continue_ = ref true in
-  while !continue_ do
-    let s = Buffer.contents buf in
-    match String.index_opt s '\n' with
-    | Some i when i <= 2000 ->
-        let line = String.sub s 0 i in
-        let line = if i > 0 && line.[i - 1] = '\r' then String.sub line 0 (i - 1) else line in
-        out := FLine line :: !out;
-        Buffer.clear buf;
-        Buffer.add_string buf (String.sub s (i + 1) (String.length s - i - 1))
-    | Some _ -> out := FTooLong :: !out; continue_ := false
-    | None -> if String.length s > 2000 then out := FTooLong :: !out; continue_ := false
-  done;
-  List.rev !out
+(* LinesCodec framing of the bytes received on one connection: the extracted Frame.feed
+   (segmentation invariance: FrameP.feed_split); the pending bytes are kept per connection *)
+let bytes_of_string (s : string) : n list = List.init (String.length s) (fun i -> n_of_int (Char.code s.[i]))
+let string_of_bytes (l : n list) : string = String.init (List.length l) (fun i -> Char.chr (int_of_n (List.nth l i)))
+let string_of_bytes (l : n list) : string =
+  let b = Buffer.create 64 in List.iter (fun c -> Buffer.add_char b (Char.chr (int_of_n c))) l; Buffer.contents b
 
 let run_trace (id : string) (a : cfgacc) (events : string list list) =
   let cfg = build_cfg a in
   let verify (p : str) (h : str) : bool =
     List.exists (fun (p', h') -> cmp_str p p' = 0 && cmp_str h h' = 0) a.pws in
   let w = ref (world_init_x cfg) in
-  let bufs : (int, Buffer.t) Hashtbl.t = Hashtbl.create 8 in
+  let bufs : (int, n list) Hashtbl.t = Hashtbl.create 8 in
   let dead = ref false in
   List.iteri (fun k ev ->
       if not !dead then begin
         let cid = match ev with _ :: c :: _ -> (try int_of_string c with _ -> 0) | _ -> 0 in
         let evs : event list =
           match ev with
-          | "O" :: _ -> Hashtbl.replace bufs cid (Buffer.create 64); [EvOpen false]
+          | "O" :: _ -> Hashtbl.replace bufs cid []; [EvOpen false]
           | ("L" | "B") :: _ :: h :: _ ->
               let bytes = unhex h ^ (if List.hd ev = "L" then "\r\n" else "") in
-              let buf = (try Hashtbl.find bufs cid with Not_found -> Buffer.create 64) in
-              Buffer.add_string buf bytes;
+              let pending = (try Hashtbl.find bufs cid with Not_found -> []) in
+              let (frames, rest) = feed_x pending (bytes_of_string bytes) in
+              Hashtbl.replace bufs cid rest;
               List.map (function
                   | FTooLong -> EvTooLong
-                  | FLine l -> (try EvLine (str_of_bytes l) with Bad_utf8 -> EvBadUtf8))
-                (frame buf)
+                  | FLine l -> (try EvLine (str_of_bytes (string_of_bytes l)) with Bad_utf8 -> EvBadUtf8))
+                frames
           | "X" :: _ -> [EvClose]
           | _ -> [] in
         let outs : (int * str) list ref = ref [] in
